@@ -38,8 +38,13 @@ class Model(object):
         self.inbox = []         # [t_arr, kind, key, extra] sorted by t_arr; kind 'reply' | 'busy'
         self.req = {}           # i -> dict(state, te, value, exc, cbs, fired)
         self.cblog = []
+        self.tie = False
+        self.arrivals = []
 
     def add_msg(self, t, kind, key, extra=None):
+        if any(abs(m[0] - t) < 1e-9 for m in self.inbox) or any(abs(a - t) < 1e-9 for a in self.arrivals):
+            self.tie = True         # two messages arriving at the same instant: their order is the peer's business, not specified
+        self.arrivals.append(t)
         self.inbox.append([t, kind, key, extra])
         self.inbox.sort(key=lambda m: m[0])
 
@@ -340,6 +345,9 @@ def compare(reqs, busy, actions, obs, cblog, S, info, sim):
             if te is not None and m.now > max(te, t0) + 1e-5:
                 sim.count("c15:busy-delayed-timeout")
         got = o[3]
+        if m.tie:
+            sim.count("c15:arrival-tie-skipped")
+            return None         # inconclusive from here on: generated instants collided after an earlier call overran
         if got != exp:
             if exp is not None and got is not None and exp[0] == "Timeout" and got[0] != "Timeout":
                 cls = "not-final" if m.req[i].get("late") else "missed-timeout"
